@@ -266,6 +266,21 @@ PROPS = {
                      'permutation invariance and "homopolymer -> 0" of WF follow from the closed form (counts only; log_b 1 = 0) and are checked natively'],
         design_ref='2 / C11',
     ),
+    'C05': dict(
+        level='other',
+        functions=[SEQ + f for f in ('delta', 'sequence_charge_decoration', 'kappa', 'Omega')],
+        lemmas=['npos_ext', 'nneg_ext', 'nneut_ext', 'dform_ext', 'C05_delta_substitution', 'C05_dmax_substitution', 'C05_kappa_substitution',
+                'scd_inner_ext', 'scd_outer_ext', 'C05_scd_substitution', 'npos_inv', 'dform_inv', 'C05_delta_inversion',
+                'scd_inner_inv', 'scd_outer_inv', 'C05_scd_inversion', 'rmax_lower'],
+        native='c05',
+        explanation='relational theorems over the closed forms the API functions are PROVED to return (get_delta = delta_spec, get_SCD = scd_spec, get_deltaMax = dmax_seq, get_kappa = kappa_seq, '
+                    'get_Omega = kappa_seq of the recoded string): for any two sequences whose residues have pairwise equal charge class, delta, delta-max, kappa and SCD are equal (inductive extensionality lemmas over the sums, '
+                    'all discharged by z3); for any two sequences related by charge inversion, delta and SCD are equal. Omega under substitution inside {P,E,D,K,R} / the other fifteen is the kappa theorem applied to the recoded strings. '
+                    'NOT mechanised: reversal invariance (needs re-indexing lemmas for the window sums) and inversion invariance of delta-max / kappa (the candidate families map onto each other under inversion + reversal) - bounded native relation check '
+                    '(exhaustive patterns up to length 6/8, random sequences incl. skewed compositions with >= 18 neutrals)',
+        assumptions=['reversal (all five) and inversion of delta-max/kappa/Omega: bounded native check only'],
+        design_ref='2 / C05',
+    ),
 }
 
 _BOUNDED_ONLY = ('deductive contracts for this property are not yet discharged in this build: the claim rests on the bounded native '
